@@ -407,6 +407,9 @@ def _multi_material_branch(ctx):
             inv_permittivities=mk("ie"), inv_permeabilities=mk("im") if magnetic else 1.0,
             electric_conductivity=mk("se") if se_on else None, magnetic_conductivity=mk("sm") if sm_on else None,
             conductivity_spacing=Rat.atom("h"), num_dispersive_poles=0,
+            # a scene without dispersion: the arrays the branch would also maintain are not allocated
+            dispersive_c1=None, dispersive_c2=None, dispersive_c3=None, dispersive_c4=None, num_disp_components=0, num_disp_coupling_components=0,
+            config=Obj(None, dict(time_step_duration=Rat.atom("dt"), dtype="float32"), "config"),
         )
         for k in ("permittivity", "permeability", "electric_conductivity", "magnetic_conductivity"):
             vars_[f"isotropic_{k}"] = ncomp == 1
